@@ -242,6 +242,20 @@ def damage(root, dmg):
     return idx
 
 
+def damaged_path(root, dmg):
+    info = json.loads((root / "dataset_info.json").read_text())
+    paths = []
+
+    def walk(rel):
+        d = json.loads((root / rel).read_text())
+        for sh in d.get("shard_files", []):
+            paths.append(sh["file_infos"][0]["file_path"])
+        for ch in d.get("children_shard_lists", []):
+            walk(ch["shard_list_info_file"]["file_path"])
+    walk(info["splits"][SPLITS[dmg["split"]]]["shard_list_info_file"]["file_path"])
+    return paths[{"first": 0, "middle": len(paths) // 2, "last": len(paths) - 1}[dmg["which"]]]
+
+
 def reference(root):
     """Depth-first order of the examples per split, from the JSON files themselves (not through the
     library's own iterator): own shards of a list first, then its children in order."""
@@ -275,6 +289,13 @@ def main():
                 root = build(job["dataset"], tmp)
                 ref = reference(root)
                 dmg_idx = damage(root, job["damage"]) if job.get("damage") else None
+                rejected = None
+                if job.get("damage"):
+                    try:
+                        H.decode(Dataset(root), root / damaged_path(root, job["damage"]))
+                        rejected = False
+                    except BaseException as ex:  # noqa: BLE001
+                        rejected = type(ex).__name__
             except Exception as ex:  # noqa: BLE001
                 res.append({"build_error": f"{type(ex).__name__}: {ex}"[:300]})
                 continue
@@ -287,7 +308,7 @@ def main():
                 if o.get("hang"):
                     hung = True
                 outs.append(o)
-            res.append({"reference": ref, "results": outs, "damaged_index": dmg_idx})
+            res.append({"reference": ref, "results": outs, "damaged_index": dmg_idx, "decoder_rejects": rejected if job.get("damage") else None})
         finally:
             shutil.rmtree(tmp, ignore_errors=True)
     print("@@RESULT@@" + json.dumps({"jobs": res}))
